@@ -380,6 +380,21 @@ def run(ctx: Context, rep) -> None:
                message="every hash object is updated in every round (plain "
                "loop over the tuple of hash objects, nothing skipped)")
         arg = u.args[0] if u.args else None
+        # a chunk named by a local assigned once inside the read loop
+        # (`chunk = buffer[:n]`) is read as the expression it names
+        pure_locals: list[ast.stmt] = []
+        if arg is not None and isinstance(arg, ast.Name) and outer is not None:
+            defs_in = [s for s in getattr(outer, "body", []) if isinstance(
+                s, (ast.Assign, ast.AnnAssign)) and s.value is not None and
+                dotted(s.targets[0] if isinstance(s, ast.Assign)
+                       else s.target) == arg.id]
+            others = [x for x in hc.body_nodes() if isinstance(
+                x, ast.Name) and x.id == arg.id and isinstance(
+                    x.ctx, ast.Store)]
+            if len(defs_in) == 1 and len(others) == 1 and \
+                    outer.body.index(defs_in[0]) < outer.body.index(inner):
+                pure_locals = defs_in
+                arg = defs_in[0].value
         ok_outer = False
         form = "?"
         if isinstance(outer, ast.For) and isinstance(outer.iter, ast.Call) and \
@@ -403,7 +418,7 @@ def run(ctx: Context, rep) -> None:
                     ok_outer = isinstance(sentinel, ast.Constant) and \
                         sentinel.value == b"" and dotted(arg) == n_var
                     form = f"iter(lambda: f.read(n), b'') / update({short(arg)})"
-            ok_outer = ok_outer and len(outer.body) == 1 and not outer.orelse
+            ok_outer = ok_outer and len(outer.body) == 1 + len(pure_locals) and not outer.orelse
         elif isinstance(outer, ast.While) and isinstance(
                 outer.test, ast.Compare) and isinstance(
                     outer.test.left, ast.NamedExpr) and len(
@@ -430,7 +445,7 @@ def run(ctx: Context, rep) -> None:
                             and outer.test.comparators[0].value == b"") and \
                     dotted(arg) == n_var
                 form = f"while (chunk := f.read(n)) != b'' / update({short(arg)})"
-            ok_outer = ok_outer and len(outer.body) == 1 and not outer.orelse
+            ok_outer = ok_outer and len(outer.body) == 1 + len(pure_locals) and not outer.orelse
         elif isinstance(outer, ast.While) and isinstance(
                 outer.test, ast.NamedExpr) and isinstance(
                     outer.test.value, ast.Call) and isinstance(
